@@ -643,7 +643,7 @@ struct SwapPlan
   bool isTemplate = false;
   int spelling = 0;   ///< how the leaf is requested
   int what = 0;       ///< 0 leaf, 1 leaf.gz, 2 both
-  int secretKind = 0; ///< 0 abs link, 1 rel link, 2 sibling-prefix file, 3 link -> link -> secret
+  int secretKind = 0; ///< 0 abs link, 1 rel link, 2 sibling-prefix file, 3 link -> link -> secret, 4 file in a case variant of the root
   bool third = false; ///< additional state: symlink to another inside file
   int threads = 1;
   int swaps = 100;
@@ -654,7 +654,7 @@ struct SwapPlan
   {
     static const char *sp[] = {"css/leaf.txt", "indir/leaf.txt", "fl.txt (link->css/leaf.txt)", "./css//leaf.txt", "self/css/leaf.txt", "up/<root>/css/leaf.txt"};
     static const char *wh[] = {"leaf", "leaf.gz", "leaf and leaf.gz"};
-    static const char *sk[] = {"abs link->secret", "rel link->secret", "link->sibling-prefix file", "link->link->secret"};
+    static const char *sk[] = {"abs link->secret", "rel link->secret", "link->sibling-prefix file", "link->link->secret", "link->file in case-variant of the root"};
     return cfg.text() + (isTemplate ? " api=getTemplate" : " api=getStatic") + " request=" + sp[spelling] + " toggles=" + wh[what] + " secret=" + sk[secretKind] +
            (third ? " +state(link->inside file)" : "") + " threads=" + std::to_string(threads) + " swaps=" + std::to_string(swaps) +
            " swapSpin=" + std::to_string(swapSpin) + " reloadEvery=" + std::to_string(reloadEvery);
@@ -695,6 +695,7 @@ void runSwapCase(pbt::Case &c, const SwapPlan &pl)
   case 0: secretTarget = t.C + "/outside/secret.txt"; break;
   case 1: secretTarget = c20::relPath(P + "/css", t.C + "/outside/key.pem"); break;
   case 2: secretTarget = c20::relPath(P + "/css", P + "-secret"); break;
+  case 4: secretTarget = c20::relPath(P + "/css", t.caseLeaf[r] + "/secret.txt"); break;
   default: secretTarget = P + "/leak.txt"; break; // itself a link to the secret
   }
   std::string request;
@@ -898,7 +899,7 @@ PBT_PROPERTY(swap)
   pl.isTemplate = pl.cfg.mode != 2 && src.range(0, 2) == 2;
   pl.spelling = (int)src.range(0, 5);
   pl.what = pl.isTemplate ? 0 : (int)src.weighted({3, 1, 2});
-  pl.secretKind = (int)src.range(0, 3);
+  pl.secretKind = (int)src.range(0, 4);
   pl.third = src.range(0, 2) == 2;
   pl.threads = (int)src.range(1, 3);
   pl.swaps = (int)src.sized(30, 400);
@@ -952,6 +953,10 @@ const std::initializer_list<std::string> kSymlinkNames = {
   "leak.txt", "leakrel.txt", "leakdir/secret.txt", "leakdir/nested/deep.txt", "leakdir/key.pem", "sib/secret.txt", "sib/index.html", "sibfile",
   "up/secret.txt", "up/static_old/secret.txt", "self/leak.txt", "self/self/leakdir/a.txt", "indir/../leak.txt", "in.txt", "indir/site.css",
   "self/css/site.css", "dangling", "loop", "loop/x", "index.html", "css/site.css", "js/app.js"};
+// outside directories that equal the root up to letter case (<base>/STATIC, <base>/ROOT/static, ...)
+const std::initializer_list<std::string> kCaseVariantNames = {
+  "casefile", "casefilerel", "casedir/secret.txt", "casedir/index.html", "casedir/css/site.css", "casedirup/secret.txt", "casedirup/index.html",
+  "casedirup/css/site.css", "self/casedir/css/site.css", "indir/../casefile", "casedir", "casedirup/", "./casedir//index.html", "index.html", "css/site.css"};
 const std::initializer_list<std::string> kSpellings = {
   "../outside/secret.txt", "../../outside/secret.txt", "css/../../../outside/secret.txt", "..", "../", "css/..", "css/../index.html", "./index.html",
   "css//site.css", "css/./site.css", "index.html/", "index.html/.", "index.html//", "css/", "", ".", "./", "...", ".../index.html", "....//outside/secret.txt",
@@ -962,6 +967,10 @@ const std::initializer_list<std::string> kSpellings = {
 PBT_REGRESSION(symlink_shapes)
 {
   for (int mode = 0; mode < 3 && !c.failed(); ++mode) runFixed(c, mode, kSymlinkNames);
+}
+PBT_REGRESSION(case_variant_neighbours)
+{
+  for (int mode = 0; mode < 3 && !c.failed(); ++mode) runFixed(c, mode, kCaseVariantNames);
 }
 PBT_REGRESSION(traversal_spellings)
 {
